@@ -2,10 +2,14 @@
 
 package cluster
 
-import "github.com/semafind/semadb/models"
+import (
+	"github.com/google/uuid"
+	"github.com/semafind/semadb/models"
+)
 
-// Verification hooks (build tag `verif` only): thin exported wrappers around unexported
-// placement code so that the correspondence harness can drive the real functions.
+// Verification hooks (build tag `verif` only; the default build does not contain this file):
+// thin exported wrappers around unexported code so that the correspondence harness can drive
+// the real functions.
 
 // VerifShardInfo is the unexported shardInfo (fields Id, Size, PointCount).
 type VerifShardInfo = shardInfo
@@ -13,4 +17,23 @@ type VerifShardInfo = shardInfo
 // VerifDistributePoints calls distributePoints unchanged.
 func VerifDistributePoints(shards []VerifShardInfo, points []models.Point, maxShardSize, maxShardPointCount int64, createShardFn func() (string, error)) (map[string][2]int, error) {
 	return distributePoints(shards, points, maxShardSize, maxShardPointCount, createShardFn)
+}
+
+// VerifCurateFailedPoints exposes the unexported, pure curateFailedPoints to the
+// correspondence harness. Note that, like the original, it sorts successIds in place.
+func VerifCurateFailedPoints(allIds []uuid.UUID, successIds []uuid.UUID, isCompleteResponse bool) []FailedPoint {
+	return curateFailedPoints(allIds, successIds, isCompleteResponse)
+}
+
+// VerifDropRPCClients closes and forgets every cached RPC client connection of this node.
+// http.Server.Shutdown does not close hijacked connections, so a peer that was closed keeps
+// answering over cached connections; the harness calls this to make a stopped peer really
+// unreachable.
+func (c *ClusterNode) VerifDropRPCClients() {
+	c.rpcClientsMu.Lock()
+	defer c.rpcClientsMu.Unlock()
+	for dest, client := range c.rpcClients {
+		client.Close()
+		delete(c.rpcClients, dest)
+	}
 }
